@@ -86,7 +86,9 @@ def run(ctx):
     nontrivial = set()
     unk = -100 * lc.UNIT
     for mi in range(nmodels):
-        m = ctx.replay_model or lc.gen_model(rng, max_order=ctx.pick(5, 6), max_vocab=ctx.pick(8, 30), estimator_like=True)
+        # every few models a large one: pointer compression (ArrayBhiksha chopping) only matters beyond ~64 entries per order, and only
+        # ExtendLeft / UnRest (chart scoring) read entries back through BitPackedMiddle::ReadEntry (third-round seeded change C08-7)
+        m = ctx.replay_model or lc.gen_model(rng, max_order=ctx.pick(5, 6), max_vocab=ctx.pick(8, 30), estimator_like=True, big=(mi % 6 == 2), hub=(mi % 12 == 7))
         sess = lc.Session(ctx, m, "m%d" % mi)
         sents = [s for _, s in lc.gen_queries(rng, m, ctx.pick(12, 40))]
         cases = []
@@ -159,6 +161,23 @@ def run(ctx):
                     mm = parse_chart(mres[lc.CHART_KIND[typ]][ci], False)
                     if mm != got:
                         problems.append(("correspondence:chart:" + typ, "implementation %r, model %r" % (got, mm), rq, False))
+            # a scorer that has already scored another rule and is given the next one through Reset(ChartState&) / Reset()
+            # must be as good as new (third-round seeded change C08-9 lost left_done_ in Reset)
+            if typ in ("probing", "trie"):
+                rl = [("C1" if i % 2 else "C2") + l[1:] for i, l in enumerate(lines_impl)]
+                rc2, out2, err2 = vlib.sh(cmd, input=("\n".join(rl) + "\n").encode(), timeout=300)
+                stats["impl_runs"] += 1
+                res2 = out2.split("\n")
+                body2 = res2[1:1 + len(cases)]
+                if len(body2) != len(cases):
+                    problems.append(("crash:scorer-reuse:" + typ, "driver died on a derivation scored with a reused RuleScore (rc=%d) %s" % (rc2, err2[-200:]), dict(base, type=typ), True))
+                else:
+                    for ci, ((s, bos, toks), l1, l2) in enumerate(zip(cases, body, body2)):
+                        stats["trees_reused_scorer"] = stats.get("trees_reused_scorer", 0) + 1
+                        if l1 != l2:
+                            problems.append(("spec:scorer-reuse:" + typ, "fresh RuleScore answers %s, a RuleScore reused through Reset answers %s" % (l1, l2),
+                                             dict(base, type=typ, sentence=s, bos=bos, tree=" ".join(toks)), True))
+                            break
             if len(problems) > 20:
                 break
         # ---- lm/partial.hh: reveal context incrementally on both sides of a fragment (CheckAdjustment of partial_test.cc)
@@ -179,7 +198,7 @@ def run(ctx):
             ml2 += ["P %s %s" % (k, fmtp(c)) for c in pcases]
         mo2 = vlib.run_lines(model_exe, ml2)
         mres2 = {"P": mo2[n2:n2 + len(pcases)], "T": mo2[n2 + len(pcases):n2 + 2 * len(pcases)], "R": mo2[n2 + 2 * len(pcases):]}
-        for typ in ["probing", "rest", "trie"]:
+        for typ in ["probing", "rest", "trie", "atrie"]:
             rc, out, err = vlib.sh([lmq, sess.arpa, typ, sess.vocab, "tmp=" + sess.dir + "/"], input=("\n".join(plines) + "\n").encode(), timeout=300)
             stats["impl_runs"] += 1
             res = out.split("\n")
@@ -200,12 +219,95 @@ def run(ctx):
                 rq = dict(base, type=typ, before=c[0], between=c[1], after=c[2])
                 if got != full - pb - pm - pa:
                     problems.append(("spec:reveal-adjustment:" + typ, "revealed adjustments sum to %s/64, whole minus parts is %s/64" % (got, full - pb - pm - pa), rq, True))
-                if typ in ("probing", "trie", "rest"):
+                if typ in ("probing", "trie", "rest", "atrie"):
                     mf = mres2[lc.CHART_KIND[typ]][ci].split()
                     mv = [(-int(v[1:], 16) if v.startswith("-") else int(v, 16)) for v in mf[:5]]
                     same = mv == vals and mf[5:7] == f[5:7] and lc.parse_state_model(mf[7] if len(mf) > 7 else "/") == lc.parse_state_impl(f[7] if len(f) > 7 else "/")
                     if not same:
                         problems.append(("correspondence:partial:" + typ, "implementation %s, model %s" % (line, mres2[lc.CHART_KIND[typ]][ci]), rq, False))
+        # ---- the same with arbitrary instalments: any cut points on either side, any interleaving of the two sides, the
+        #      complete flag either on the last chunk or in a separate closing call (the theorems C08_reveal_before_incremental /
+        #      C08_reveal_after_incremental quantify over the cuts; the interleaving is only decided here)
+        def gen_script(bl, bfull, al, afull):
+            def side(n, full, lo, up):
+                seq = []
+                if n > 0:
+                    cuts = sorted(set([n] + [rng.range(1, n) for _ in range(rng.below(3))])) if rng.below(3) else list(range(1, n + 1))
+                    for c in cuts[:-1]:
+                        seq.append("%s%d" % (lo, c))
+                    if full and rng.below(2):
+                        seq.append("%s%d" % (up, n))
+                    else:
+                        seq.append("%s%d" % (lo, n))
+                        if full:
+                            seq.append(lo + "F")
+                elif full:
+                    seq.append(lo + "F")
+                return seq
+            bs, as_ = side(bl, bfull, "b", "B"), side(al, afull, "a", "A")
+            out = []
+            while bs or as_:
+                if bs and (not as_ or rng.below(2)):
+                    out.append(bs.pop(0))
+                else:
+                    out.append(as_.pop(0))
+            return out
+        xcases = [c for c in pcases if c[1]][:ctx.pick(40, 400)]
+        il = m.session_lines()
+        ni = len(il)
+        for k in ("P", "T", "R"):
+            il += ["PX %s %s ;" % (k, fmtp(c)) for c in xcases]
+        info = vlib.run_lines(model_exe, il)[ni:]
+        scripts = {}
+        for ki, k in enumerate(("P", "T", "R")):
+            for ci, c in enumerate(xcases):
+                f = info[ki * len(xcases) + ci].split()
+                if len(f) == 5 and f[0] == "I":
+                    scripts[(k, ci)] = gen_script(int(f[1]), f[2] == "1", int(f[3]), f[4] == "1")
+        xl = m.session_lines()
+        nx_ = len(xl)
+        order_x = []
+        for k in ("P", "T", "R"):
+            for ci, c in enumerate(xcases):
+                if scripts.get((k, ci)):
+                    order_x.append((k, ci))
+                    xl.append("PX %s %s ; %s" % (k, fmtp(c), " ".join(scripts[(k, ci)])))
+        mox = dict(zip(order_x, vlib.run_lines(model_exe, xl)[nx_:]))
+        for typ in ["probing", "rest", "trie", "atrie"]:
+            k = lc.CHART_KIND[typ]
+            mine = [(kk, ci) for (kk, ci) in order_x if kk == k]
+            if not mine:
+                continue
+            lines = ["PX %s ; %s" % (fmtp(xcases[ci]), " ".join(scripts[(k, ci)])) for (_, ci) in mine]
+            rc, out, err = vlib.sh([lmq, sess.arpa, typ, sess.vocab, "tmp=" + sess.dir + "/"], input=("\n".join(lines) + "\n").encode(), timeout=300)
+            stats["impl_runs"] += 1
+            res = out.split("\n")
+            if not res or not res[0].startswith("loaded"):
+                continue
+            body = res[1:1 + len(lines)]
+            if len(body) != len(lines):
+                problems.append(("crash:partial-script:" + typ, "driver died in scripted RevealBefore/RevealAfter (rc=%d) %s" % (rc, err[-200:]), dict(base, type=typ), True))
+                continue
+            for (kk, ci), line in zip(mine, body):
+                c = xcases[ci]
+                f = line.split()
+                stats["scripted_reveals"] = stats.get("scripted_reveals", 0) + 1
+                stats["scripted_reveal_calls"] = stats.get("scripted_reveal_calls", 0) + len(scripts[(k, ci)])
+                vals = []
+                for x in f[:5]:
+                    u = lc.bits_to_units(int(x, 16))
+                    vals.append(int(u) if u.denominator == 1 else u)
+                got, full, pb, pm, pa = vals
+                rq = dict(base, type=typ, before=c[0], between=c[1], after=c[2], script=scripts[(k, ci)])
+                if got != full - pb - pm - pa:
+                    problems.append(("spec:reveal-instalments:" + typ, "instalments %s sum to %s/64, whole minus parts is %s/64" % (" ".join(scripts[(k, ci)]), got, full - pb - pm - pa), rq, True))
+                ml_ = mox.get((kk, ci), "")
+                mf = ml_.split()
+                if len(mf) >= 7:
+                    mv = [(-int(v[1:], 16) if v.startswith("-") else int(v, 16)) for v in mf[:5]]
+                    same = mv == vals and mf[5:7] == f[5:7] and lc.parse_state_model(mf[7] if len(mf) > 7 else "/") == lc.parse_state_impl(f[7] if len(f) > 7 else "/")
+                    if not same:
+                        problems.append(("correspondence:partial-script:" + typ, "implementation %s, model %s" % (line, ml_), rq, False))
         # ---- Subsume: merging two adjacent fragments accumulates whole minus parts and yields the whole's chart state
         ucases = []
         if isinstance(ro.get("first"), list) and isinstance(ro.get("second"), list):
@@ -222,7 +324,7 @@ def run(ctx):
             ml3 += ["SUB %s %s" % (k, fmtu(c)) for c in ucases]
         mo3 = vlib.run_lines(model_exe, ml3)
         mres3 = {"P": mo3[n3:n3 + len(ucases)], "T": mo3[n3 + len(ucases):n3 + 2 * len(ucases)], "R": mo3[n3 + 2 * len(ucases):]}
-        for typ in ["probing", "rest", "trie"]:
+        for typ in ["probing", "rest", "trie", "atrie"]:
             rc, out, err = vlib.sh([lmq, sess.arpa, typ, sess.vocab, "tmp=" + sess.dir + "/"], input=("\n".join(ulines) + "\n").encode(), timeout=300)
             stats["impl_runs"] += 1
             res = out.split("\n")
@@ -247,7 +349,7 @@ def run(ctx):
                 # merged chart state = chart state of the whole fragment (left length/full, right state)
                 if f[4:] != whole[1:]:
                     problems.append(("spec:subsume-state:" + typ, "merged state %s, state of the whole fragment %s" % (" ".join(f[4:]), " ".join(whole[1:])), rq, True))
-                if typ in ("probing", "trie", "rest"):
+                if typ in ("probing", "trie", "rest", "atrie"):
                     mf = mres3[lc.CHART_KIND[typ]][ci].split()
                     mv = [(-int(v[1:], 16) if v.startswith("-") else int(v, 16)) for v in mf[:4]]
                     same = mv == vals and mf[4:6] == f[4:6] and lc.parse_state_model(mf[6] if len(mf) > 6 else "/") == lc.parse_state_impl(f[6] if len(f) > 6 else "/")
